@@ -4,7 +4,7 @@
     [KnownClass], [reachable] and all proofs: Proofs/AuthProofs.v.
     [hmac] (HMAC-SHA256) and [parse] (the command parser) are universally quantified. *)
 From Coq Require Import NArith List Bool String.
-From Snel Require Import Base.Bytes Gen.Params Model.Auth Proofs.AuthProofs.
+From Snel Require Import Base.Bytes Gen.Params Model.Auth Proofs.AuthProofs Proofs.AuthOwnRecord.
 Import ListNotations.
 Open Scope N_scope.
 
@@ -255,3 +255,25 @@ Theorem C13_never_reactivated : forall s0 s id, reachable_from s0 s ->
   active_of s0 id = Some false -> active_of s id = Some false.
 Proof. exact never_reactivated. Qed.
 Print Assumptions C13_never_reactivated.
+
+(** The permission cache answers for a user id from that user's own record only: two reachable
+    states that hold the same record (or none) under [uid] answer alike, whatever other accounts
+    exist in either - in particular an account whose id differs only in letter case lends nothing
+    (ids are compared exactly, [alookup]).  An id without an account is granted nothing. *)
+Theorem C13_can_read_own_record : forall s s' uid t, reachable s -> reachable s' ->
+  alookup uid (st_users s) = alookup uid (st_users s') ->
+  can_read (st_cache s) uid t = can_read (st_cache s') uid t.
+Proof. exact can_read_own_record. Qed.
+Print Assumptions C13_can_read_own_record.
+
+Theorem C13_can_write_own_record : forall s s' uid t, reachable s -> reachable s' ->
+  alookup uid (st_users s) = alookup uid (st_users s') ->
+  can_write (st_cache s) uid t = can_write (st_cache s') uid t.
+Proof. exact can_write_own_record. Qed.
+Print Assumptions C13_can_write_own_record.
+
+Theorem C13_unknown_id_denied : forall s uid t, reachable s ->
+  alookup uid (st_users s) = None ->
+  can_read (st_cache s) uid t = false /\ can_write (st_cache s) uid t = false.
+Proof. exact unknown_id_denied. Qed.
+Print Assumptions C13_unknown_id_denied.
